@@ -99,6 +99,7 @@ package packageonly
 // type is reported (PKGO01) at its first unsuppressed reference in the file, and nothing else is reported.
 //@ func CheckPackageOnly
 //@   props C04 C07 C08 C12 C14 C10
+//@   assigns nothing
 //@   requires cfg != nil && pass.Pkg != nil && packageAnnotations != nil && (ignoreSet != nil ==> isetInv(ignoreSet))
 //@   ensures forall j int :: 0 <= j && j < len(result) ==> justifiedP(cfg, pass, packageAnnotations, ignoreSet, result[j])
 //@   ensures forall f *ast.File :: contains(pass.Files, f) && !skipFile(cfg, pass, f) ==> doneFileP(pass, packageAnnotations, ignoreSet, result, f)
@@ -113,3 +114,26 @@ package packageonly
 //@   at call ast.Inspect#1 invariant forall k int, pos token.Pos :: 0 <= k && k < $i && liveRef(pass, packageAnnotations, ignoreSet, $seq[k], "PKGO01", pos) ==> reportedTypes[nodeKey(pass, $seq[k])]
 //@   at call ast.Inspect#1 invariant forall key string :: reportedTypes[key] ==> (exists j int :: atentry(len(violations)) <= j && j < len(violations) && violations[j].Code == "PKGO01" && pvkey(violations[j]) == key)
 //@   at call ast.Inspect#1 invariant doneUpToP(pass, packageAnnotations, ignoreSet, violations, atentry(len(violations)), file, $i)
+
+//@ func PackageOnlyViolation.GetCode
+//@   props C17 C10
+//@   ensures result == v.Code
+//@   assigns nothing
+//@ func PackageOnlyViolation.GetPos
+//@   props C17 C10
+//@   ensures result == v.Pos
+//@   assigns nothing
+
+// ---- C17 / C08: every violation that the suppression set does not cover is emitted, at its position ----------------
+//@ pure func shown_packageonly(ign *util.IgnoreSet, vs []PackageOnlyViolation, m int) rec int = m <= 0 ? 0 : (shown_packageonly(ign, vs, m-1) + (supp(ign, vs[m-1].Code, vs[m-1].Pos) ? 0 : 1))
+//@ func ReportViolations
+//@   props C17 C08 C07 C10
+//@   requires true
+//@   assigns pass.$reports
+//@   ensures len(pass.$reports) == old(len(pass.$reports)) + shown_packageonly(nil, violations, len(violations))
+//@   ensures forall k int :: 0 <= k && k < old(len(pass.$reports)) ==> pass.$reports[k] == old(pass.$reports)[k]
+//@   ensures forall j int :: 0 <= j && j < len(violations) && !supp(nil, violations[j].Code, violations[j].Pos) ==> (exists k int :: old(len(pass.$reports)) <= k && k < len(pass.$reports) && pass.$reports[k].Pos == violations[j].Pos)
+//@   loop 1 invariant reporterOK(reporter) && reporter.pass == pass && reporter.ignoreSet == nil && 0 <= shown_packageonly(nil, violations, $i)
+//@   loop 1 invariant len(pass.$reports) == old(len(pass.$reports)) + shown_packageonly(nil, violations, $i)
+//@   loop 1 invariant forall k int :: 0 <= k && k < old(len(pass.$reports)) ==> pass.$reports[k] == old(pass.$reports)[k]
+//@   loop 1 invariant forall j int :: 0 <= j && j < $i && !supp(nil, violations[j].Code, violations[j].Pos) ==> (exists k int :: old(len(pass.$reports)) <= k && k < len(pass.$reports) && pass.$reports[k].Pos == violations[j].Pos)
